@@ -311,7 +311,9 @@ FixedVArray<T>::getitem (Py_ssize_t index)
 {
     const size_t i = canonical_index (index, _length);
     std::vector<T>& data = _ptr[(_indices ? raw_ptr_index(i) : i) * _stride];
-    return FixedArray<T>(data.empty() ? nullptr : &data[0], data.size(), 1, _writable);
+    // pass the handle along: views derived from the row (aliases, masked
+    // references) must keep the variable array's storage alive too
+    return FixedArray<T>(data.empty() ? nullptr : &data[0], data.size(), 1, _handle, _writable);
 }
 
 template <class T>
